@@ -208,6 +208,9 @@ def run_native_one(ob, c, cfg, model, symf=None):
             args0 = c.inputs(S0, cfg)
             res["reproduced"] = any(not same(args1[a], args0[a]) for a in (c.frame or []))
             return res
+        if ob.get("kind") == "raises-only":
+            res["reproduced"] = real[0] == "raise" and type(real[1]).__name__ not in (c.may_raise or [])
+            return res
         if ob.get("kind") == "raises":
             ns = dict(resolve(c.spec_module).__dict__)
             ns.update(args1)
